@@ -16,7 +16,7 @@ theorem step_const (w n g r b a : Nat) (d4 : Dec) (hg : g < 256) (hr : r < 256) 
     (i : Nat) (rev : List Nat) (cache : Array Nat) (bits : List Nat) :
     step (constImg w n g r b a d4) i rev cache bits =
       some (i + 1, (a * 2 ^ 24 + r * 2 ^ 16 + g * 2 ^ 8 + b) :: rev, cache, bits) := by
-  unfold step
+  unfold step stepG
   have hgrp : (constImg w n g r b a d4).group i =
       #[specDec (oneHot 280 g), specDec (oneHot 256 r), specDec (oneHot 256 b), specDec (oneHot 256 a), d4] := rfl
   simp only [hgrp, gd0, gd1, gd2, gd3, specDec]
